@@ -104,8 +104,8 @@ func loadEngine(repo string, patterns []string) (*Engine, error) {
 			if strings.HasPrefix(fs.Name, "(") && strings.Contains(k, ").") && !strings.HasPrefix(fs.Name, "(*") {
 				continue // interface method contract
 			}
-			if fs.Flags["functype"] {
-				continue
+			if fs.Flags["functype"] || !strings.HasPrefix(fs.Pkg, e.module) {
+				continue // function types, and trusted contracts for functions of third-party packages
 			}
 			return nil, fmt.Errorf("%s:%d: contract for unknown function %s", fs.File, fs.Line, k)
 		}
@@ -320,10 +320,16 @@ func (u *Unit) runRoot() {
 			}
 		}
 	}
-	for _, fv := range fn.FreeVars {
+	for i, fv := range fn.FreeVars {
 		v := u.freshVal(st, "fv_"+fv.Name(), fv.Type())
 		fr.vals[fv] = v
 		u.assume(st, not(eq(v.T, "0")))
+		if pt, ok := fv.Type().Underlying().(*types.Pointer); ok && effectivelyFinal(fn, i) {
+			if fr.pinned == nil {
+				fr.pinned = map[*ssa.FreeVar]Val{}
+			}
+			fr.pinned[fv] = u.freshVal(st, "cap_"+fv.Name(), pt.Elem())
+		}
 	}
 	u.entry = st // provisional: lets baseEnv read captured cells; replaced by a snapshot once the assumptions are in
 	env := fr.baseEnv()
